@@ -81,7 +81,7 @@ type ContractSet struct {
 
 var clauseKeywords = map[string]bool{
 	"requires": true, "ensures": true, "loop": true, "assigns": true, "reads": true,
-	"nopanic": true, "maypanic": true, "pure": true, "opaque": true, "inline": true, "trusted": true, "heapfree": true, "overflow": true,
+	"nopanic": true, "maypanic": true, "pure": true, "opaque": true, "inline": true, "trusted": true, "heapfree": true, "overflow": true, "loopframe": true,
 	"let": true, "mode": true, "atcall": true, "assume": true, "havoc": true, "exceptional": true,
 }
 
@@ -220,7 +220,7 @@ func (cs *ContractSet) LoadContractFile(path, pkgPath string) error {
 		if cur != nil && clauseKeywords[first] {
 			rest := strings.TrimSpace(tb[len(first):])
 			switch first {
-			case "nopanic", "maypanic", "pure", "opaque", "inline", "trusted", "heapfree", "overflow":
+			case "nopanic", "maypanic", "pure", "opaque", "inline", "trusted", "heapfree", "overflow", "loopframe":
 				cur.Flags[first] = true
 				curClause = nil
 				continue
